@@ -556,6 +556,16 @@ def observe(lib, m, I, d, common, fuse=False):
     s = I.ids['sensor'][x]
     if fuse and int(m.sensor_objtype[s]) == E.mjOBJ_BODY and int(m.sensor_type[s]) in FRAME_SENSORS(E):
       continue      # objtype="body" is the INERTIAL frame, which legitimately changes when static children are fused in
+    if int(m.sensor_type[s]) in FRAME_SENSORS(E) and any(
+        int(t) == E.mjOBJ_BODY and 0 <= int(i) < m.nbody and float(m.body_mass[int(i)]) == 0.0
+        for t, i in ((m.sensor_objtype[s], m.sensor_objid[s]), (m.sensor_reftype[s], m.sensor_refid[s]))):
+      # objtype/reftype "body" is the INERTIAL frame.  A massless body has no inertial frame of its own: the compiler copies
+      # the body's pos/quat attributes (before frames are applied) into ipos/iquat, so xipos of such a body depends on
+      # the spelling (same exclusion as for the ipos/iquat model fields of massless bodies)
+      continue
+    if int(m.sensor_type[s]) in (E.mjSENS_SUBTREECOM, E.mjSENS_SUBTREELINVEL, E.mjSENS_SUBTREEANGMOM) and \
+        float(m.body_subtreemass[int(m.sensor_objid[s])]) == 0.0:
+      continue      # centre of mass of a massless subtree falls back to the (spelling-dependent) inertial frame, see above
     v = d.sensordata[int(m.sensor_adr[s]):int(m.sensor_adr[s] + m.sensor_dim[s])]
     (sq if int(m.sensor_type[s]) in (E.mjSENS_FRAMEQUAT, E.mjSENS_BALLQUAT) else sv).append(v)
   out['sensordata'] = np.concatenate(sv) if sv else np.zeros(0)
